@@ -31,7 +31,16 @@ PROP = {
             "component": "wsdecode",
             "quick": {"gen": [(8000, 40)], "enum": [(8,)]},
             "thorough": {"gen": [(50000, 40)], "enum": [(12,)]},
+        }, {
+            # the decoder under a Stream (component of C06): "stays in sync ... independent of how the bytes were split across reads"
+            # with asynchronous reads in flight while the application touches the stream (SetMaxMessageSize on the live stream)
+            "component": "wsmsg",
+            "quick": {"gen": [(2500, 5)]},
+            "thorough": {"gen": [(20000, 6)]},
         }],
+        "keys": ["wsdecode.*", "wsmsg.*"],
+        # a consumer that keeps decoded frames in the source buffer's save area (the model has no save area)
+        "direct": [{"component": "wsdecode", "timeout": 600}],
         "rule": "scripts = NewFrameCodec over a fresh ByteBuffer (max from {0,1,125,126,127,200,300,600,1000,65535,65536,70000,2^19,-1,-5,2^31}, "
                 "optional Reserve) followed by a byte string made of frames in every length class relative to max "
                 "(0,1,2,125,126,127,200,65535,65536,max-1,max,max+1, 2^32, 2^62, 2^63-1, 2^63, 2^63+k, 2^64-1; huge ones header-only), random header "
